@@ -311,6 +311,7 @@ func websocketClient(ctx context.Context, addr string, namespace string, outs []
 		// client produces
 		sc := defaultServerConfig()
 		sc.methodNameFormatter = config.methodNamer
+		sc.errors = config.errors
 		h := makeHandler(sc)
 		h.aliasedMethods = config.aliasedHandlerMethods
 		for _, reverseHandler := range config.reverseHandlers {
